@@ -779,6 +779,24 @@ def whole_jobs(ctx):
         jobs.append((cfg, True, 1, "debug"))
         if not ctx.quick or j == 1:
             jobs.append((dict(cfg), False, 2, "pool"))
+    # zero repair and reporting delays + pre-simulation emissions at the exact boundary: single-emission repairable
+    # sources with a high production rate, so that many sources carry an emission that began exactly `duration` days
+    # before the first day (the oldest date the generator can produce); OGI visits every site on the first day
+    # (monthly surveys, several crews, short surveys) and its tags are repaired in the same daily update.  Every
+    # program's records are compared with the scenario and with every other program, natural end date included.
+    cfg = W.make_config(ctx.rng, n_sims=ctx.pick(1, 2), granular=False, n_sites=4, start=[2024, 1, 1], end=[2024, 2, 29],
+                        pre_sim_emissions=True, repair_delay=[0], consider_weather=False, daylight=None,
+                        rep={"epr": 0.5, "duration": 30, "multi": False},
+                        nonrep={"epr": 0.0625, "duration": 20, "multi": True})
+    cfg["methods"]["OGI"].update(reporting_delay=0, crew_count=4, survey_time=5, surveys_per_year=12,
+                                 months=list(range(1, 13)), spatial=1.0, mdl=0.125, consider_daylight=False,
+                                 t_bw_sites=[5.0])
+    cfg["methods"]["OGI_FU"]["reporting_delay"] = 0
+    cfg["programs"] = [p for p in cfg["programs"] if p["name"] in ("P_none", "P_OGI", "P_air")]
+    cfg["zero_delay_boundary"] = True
+    jobs.append((cfg, True, 1, "debug"))
+    if not ctx.quick:
+        jobs.append((dict(cfg), False, 2, "pool"))
     if not ctx.quick:
         # exactly one batch (5) and one batch plus two (7) simulation numbers
         for ns in (5, 7):
@@ -825,6 +843,12 @@ def whole_stage(ctx):
             ctx.count("wholerun_runs_n_sims_%d" % cfg["n_sims"])
             if cfg.get("site_extra_cols"):
                 ctx.count("wholerun_runs_with_site_deployment_columns")
+            if cfg.get("zero_delay_boundary"):
+                ctx.count("wholerun_runs_zero_delays")
+                for sim in sims:
+                    rows, _ = scenario_rows(res, sim)
+                    ctx.count("wholerun_emissions_begun_exactly_duration_days_before_in_zero_delay_runs",
+                              sum(1 for x in rows if x[3] and (res.start - x[5]).days == cfg["rep"]["duration"]))
             if res.ndays <= 2:
                 ctx.count("wholerun_runs_period_of_1_or_2_days")
             if res.start.year != res.end.year:
